@@ -44,6 +44,24 @@ CHECKS = {'C01': {'level': 'exploration',
                     'checks': {'quick': 250, 'thorough': 2500},
                     'shards': {'quick': 1, 'thorough': 16},
                     'timeout': {'quick': 900, 'thorough': 3400}}]},
+ 'C04': {'level': 'exploration',
+         'rule': 'data layouts from the model-based history machine (aggregate-safe value domain: small integers, dyadic floats, no NaN; '
+                 'sparse/dense, 0..3 blocks, rows lacking columns, reused offsets, bool/string/enum/key columns, up to 4 bitmap indexes) interleaved '
+                 'with generated QUERIES: a chain of 1..5 of With/Without/Union/WithUnion (1..3 names each from indexes, value columns, bool '
+                 'columns, expire, the key column and a missing name) and WithValue/WithInt/WithUint/WithFloat/WithString (matching and non-matching '
+                 'column types, missing columns), followed by Count, Range (order, cursor, readers positioned on the row) and Sum/Avg/Min/Max of '
+                 'EVERY numeric column. Oracle: the reference model evaluates the chain as set algebra over live rows and the aggregates directly '
+                 'over the selected rows holding a value. A query is non-trivial when the selection is neither empty nor everything and the layout '
+                 'has rows lacking an aggregated column, >=2 blocks or reused offsets; a case is non-trivial when it ran >=1 such query; distinct = '
+                 'hash of the trace (incl. queries); counters.queries / counters.nontrivial_queries give the totals',
+         'assumptions': ['aggregate-safe values: sums are exact in any order; Sum/Avg are not judged when the true sum does not fit the column type '
+                         '(counted)',
+                         'a fresh Union(missing, ...) is not generated (the text does not define it); WithValue is not applied to index names; '
+                         'float->uint filter conversions are not generated'],
+         'tests': [{'run': '^TestC04$',
+                    'checks': {'quick': 250, 'thorough': 2500},
+                    'shards': {'quick': 1, 'thorough': 16},
+                    'timeout': {'quick': 900, 'thorough': 3400}}]},
  'C05': {'level': 'exploration',
          'rule': 'op sequences over {delete, insert, bool, put/merge x 2/4/8-byte, byte strings of length 0..65535} x offset moves '
                  '{same,+1,+small,>=128,>=16384,>=2^21,backwards,block jump,back to block 0,revisit}: exhaustively all short sequences over an '
